@@ -389,11 +389,14 @@ Proof. exact corrse_from_cov_roundtrip. Qed.
    (+ ROUNDING ERRORS | MAX EVALUATIONS) / OPTIMIZATION WAS COMPLETED, near-boundary line, any digit strings for the
    function evaluations, significant digits and estimation time, every covariance line): the rows between #TERM: and
    #TERE: are read back as exactly the written termination facts, and the rows after #TERE: as the written covariance
-   status and estimation time.  The whole-file statement (parse_render_lst: binary line splitting, version gate, the
-   tag state machine, table_blocks, status queries, for every rendered file and every list of table numbers) is
-   proved in build/scratch/C20/lst/LstFile.v but NOT part of the gated development: that file needs 25 minutes to
-   compile; the state machine stays tied by the correspondence and Examples.ex_lst_file. *)
-From PV Require Import C20.Lst C20.LstProofs.
+   status and estimation time.
+   File level (parse_render_lst, proved in C20/LstFile.v): for EVERY version text accepted by the 7.2.0 gate, EVERY
+   list of well-formed written blocks (any number of blocks, including none) and EVERY list of queried table
+   numbers, reading the rendered file -- binary line splitting, version line, the tag state machine of tag_items
+   over all lines, table_blocks, and the per-table status queries -- returns exactly the written version and, per
+   queried number, the facts of the LAST written block with that number (expected_facts; no such block -> the default "nothing known" facts).
+   Non-vacuity: Examples.ex_lst_file (version_ok accepts 7.5.0 and rejects 7.1.0; a concrete two-block file). *)
+From PV Require Import C20.Lst C20.LstProofs C20.LstFile.
 
 Theorem parse_render_lst_term : forall b : wblock,
     wblock_ok b = true -> parse_termination (render_term_rows b) = term_of_wblock b.
@@ -402,3 +405,8 @@ Proof. exact parse_termination_render_lemma. Qed.
 Theorem parse_render_lst_tere : forall b : wblock,
     wblock_ok b = true -> parse_tere (render_tere_rows b) = tere_of_wblock b.
 Proof. exact parse_tere_render_lemma. Qed.
+
+Theorem parse_render_lst : forall (v : text) (bs : list wblock) (numbers : list N),
+    version_ok v = true -> forallb wblock_ok bs = true ->
+    read_lst (render_lst v bs) numbers = LstOk v (map (fun n => (n, expected_facts bs n)) numbers).
+Proof. exact parse_render_lst_lemma. Qed.
